@@ -435,3 +435,21 @@ Definition own_k : list krec -> list krec := own krec ksrc.
 Definition oth_k : list krec -> list krec := oth krec ksrc.
 Notation applies_p := (applies prec prec_eqb prec_of_pdu).
 Notation applies_k := (applies krec krec_eqb krec_of_pdu).
+
+(* instance forms *)
+Lemma oth_fold_p ps X : oth_p (fold_left delta_p ps X) = oth_p X.
+Proof. apply (oth_fold prec prec_eqb prec_eqb_eq prec_of_pdu psrc psrc_of_pdu). Qed.
+Lemma oth_fold_k ps X : oth_k (fold_left delta_k ps X) = oth_k X.
+Proof. apply (oth_fold krec krec_eqb krec_eqb_eq krec_of_pdu ksrc ksrc_of_pdu). Qed.
+Lemma own_fold_p ps X : own_p (fold_left delta_p ps X) = fold_left delta_p ps (own_p X).
+Proof. apply (own_fold prec prec_eqb prec_of_pdu psrc psrc_of_pdu). Qed.
+Lemma own_fold_k ps X : own_k (fold_left delta_k ps X) = fold_left delta_k ps (own_k X).
+Proof. apply (own_fold krec krec_eqb krec_of_pdu ksrc ksrc_of_pdu). Qed.
+Lemma gundo_spec_oth_p live ps X :
+  NoDup X -> applies_p ps X ->
+  exists Y2 t2, undo_pfx live (rev ps) (fold_left delta_p ps X) = (Y2, t2, true) /\ Permutation Y2 X /\ oth_p Y2 = oth_p X.
+Proof. rewrite undo_pfx_gen. apply (gundo_spec_oth prec prec_eqb prec_eqb_eq TPfx prec_of_pdu psrc psrc_of_pdu). Qed.
+Lemma gundo_spec_oth_k live ps X :
+  NoDup X -> applies_k ps X ->
+  exists Y2 t2, undo_keys live (rev ps) (fold_left delta_k ps X) = (Y2, t2, true) /\ Permutation Y2 X /\ oth_k Y2 = oth_k X.
+Proof. rewrite undo_keys_gen. apply (gundo_spec_oth krec krec_eqb krec_eqb_eq TKey krec_of_pdu ksrc ksrc_of_pdu). Qed.
